@@ -138,6 +138,9 @@ pub enum TyperError {
     /// String types should not appear in main language
     StringNotSupported(SourceLocation),
 
+    /// There are no 64-bit integer types to give a literal with a long suffix
+    LongIntegerNotSupported(SourceLocation),
+
     /// A type modifier was used in a context where it is not allowed to be used
     ModifierNotSupported(ast::TypeModifier, SourceLocation, TypePosition),
 
@@ -819,6 +822,11 @@ impl CompileError for TyperExternalError {
             ),
             TyperError::StringNotSupported(loc) => w.write_message(
                 &|f| write!(f, "string may not be used"),
+                *loc,
+                Severity::Error,
+            ),
+            TyperError::LongIntegerNotSupported(loc) => w.write_message(
+                &|f| write!(f, "64-bit integer literals are not supported"),
                 *loc,
                 Severity::Error,
             ),
